@@ -74,6 +74,7 @@ type Script struct {
 	Probe    bool       `json:"probe"`    // at the end: count admissions of the quiescent conn
 	ProbeC   int        `json:"probe_c"`  // first caller number used by the probe
 	GraceMs  int        `json:"grace_ms"` // how long a call that should return may take
+	Arm      bool       `json:"arm"`      // C07 mode: EVERY SetReadDeadline is held (steps SrdI / SrdW / Advance)
 	Pause    bool       `json:"pause"`    // insert short sleeps after releases (lets goroutines run before the next step)
 	Beh      any        `json:"beh,omitempty"`
 }
@@ -203,7 +204,7 @@ func (r *run) manual(op *simnet.Op) bool {
 	case simnet.OpRead, simnet.OpWrite:
 		return true
 	case simnet.OpSetReadDeadline:
-		return r.hold.Load() && op.DKind == "idle"
+		return r.hold.Load() && (op.DKind == "idle" || r.sc.Arm)
 	}
 	return false
 }
@@ -503,6 +504,41 @@ func (r *run) deliverStray() bool {
 	return r.conn.Deliver(b, stepWait, "c", -1, "g", 0, "n", r.strayN-1, "wid", int(w))
 }
 
+func isWaitArm(o *simnet.Op) bool { return o.Kind == simnet.OpSetReadDeadline && o.DKind == "waiting" }
+
+// quiesce completes held SetReadDeadline calls in the order they were made until no new call on the conn has
+// shown up for d (generous: a goroutine that returned from Write reaches its next call in nanoseconds).
+func (r *run) quiesce(d time.Duration) {
+	last := time.Now()
+	n := -1
+	for time.Since(last) < d {
+		if op := r.conn.Find(simnet.IsKind(simnet.OpSetReadDeadline)); op != nil {
+			op.Complete(nil)
+			last = time.Now()
+			continue
+		}
+		if k := len(r.rec.Events()); k != n {
+			n, last = k, time.Now()
+		}
+		time.Sleep(5 * time.Millisecond)
+	}
+}
+
+// drainWaitArms lets held SetReadDeadline(waiting) calls take effect until an op satisfying pred is pending.
+func (r *run) drainWaitArms(pred func(*simnet.Op) bool, d time.Duration) {
+	deadline := time.Now().Add(d)
+	for time.Now().Before(deadline) {
+		if r.conn.Find(pred) != nil || r.conn.IsClosed() {
+			return
+		}
+		if op := r.conn.Find(isWaitArm); op != nil {
+			op.Complete(nil)
+			continue
+		}
+		time.Sleep(200 * time.Microsecond)
+	}
+}
+
 func isIdleArm(o *simnet.Op) bool { return o.Kind == simnet.OpSetReadDeadline && o.DKind == "idle" }
 
 // readerBack waits until the reader has issued its next call on the conn (hand-off attempt over).
@@ -695,6 +731,9 @@ func (r *run) steer() (steered bool, why string) {
 				return fail("no pending Write")
 			}
 		case "ReadMsg":
+			if r.sc.Arm { // a held SetReadDeadline(waiting) nobody scripted must not keep the reader (or a caller) out
+				r.drainWaitArms(simnet.IsKind(simnet.OpRead), stepWait)
+			}
 			ok := false
 			if st.C < 0 {
 				ok = r.deliverStray()
@@ -706,6 +745,9 @@ func (r *run) steer() (steered bool, why string) {
 				return fail("could not deliver")
 			}
 		case "Dispatch":
+			if r.sc.Arm {
+				r.drainWaitArms(func(o *simnet.Op) bool { return isIdleArm(o) || o.Kind == simnet.OpRead }, stepWait)
+			}
 			if !r.readerBack(stepWait) {
 				return fail("reader did not come back")
 			}
@@ -728,6 +770,9 @@ func (r *run) steer() (steered bool, why string) {
 				r.cancel(st.C)
 			}
 		case "Return":
+			if r.sc.Arm && !r.collect(st.C, 200*time.Millisecond) {
+				r.quiesce(300 * time.Millisecond)
+			}
 			if !r.collect(st.C, r.grace) {
 				if r.hasPendingWrite(st.C) {
 					return fail("call still inside Write")
@@ -737,6 +782,18 @@ func (r *run) steer() (steered bool, why string) {
 			}
 		case "Sleep":
 			time.Sleep(time.Duration(st.N) * time.Millisecond)
+		case "SrdI": // let the held SetReadDeadline(idle) take effect
+			if !r.armIdle(stepWait) {
+				return fail("no SetReadDeadline(idle)")
+			}
+		case "SrdW": // let a held SetReadDeadline(waiting) take effect, if one shows up within 1 s (whether a caller
+			// or the reader arms it is the code's business; the trace spec judges the resulting deadline)
+			if op := r.conn.Wait(isWaitArm, time.Second); op != nil {
+				op.Complete(nil)
+			}
+		case "Advance": // 30 s of virtual silence, once nothing has moved for a second
+			r.quiesce(time.Second)
+			r.conn.Advance(30 * time.Second)
 		case "Bulk":
 			if err := r.bulk(st.Cnt); err != nil {
 				return fail(err.Error())
